@@ -3,7 +3,7 @@
 Implementation: codebasin.file_source.c_file_source (on an in-memory stream) and
                 codebasin.file_parser.FileParser(path).parse_file() (node list, root.total_sloc)
 Model (Lean):   CbiVerif.CClean  (one_space_line / c_cleaner / c_file_source / LineGroup folding)
-Spec  (Lean):   CbiVerif.CLexRef (splice -> decomment -> counted lines / logical lines / nodes, wf, k1..k3)
+Spec  (Lean):   CbiVerif.CLexRef (splice -> decomment -> counted lines / logical lines / nodes, wf, k1, k2)
                 driver op "clex" returns {"model": ..., "spec": ...}; "clex_isspace" the str.isspace table
 Oracle (thorough): gcc -E on identifier-tagged texts validates the spec itself.
 """
@@ -19,9 +19,10 @@ import subprocess
 
 from harness import core
 from harness.props import c05_impl as I
+from harness.props import c05_raw as RAW
 
 ALPHA = "a \n/*\"'\\#"
-F1, F2, F3 = "F-C05-1", "F-C05-2", "F-C05-3"
+F1, F2 = "F-C05-1", "F-C05-2"
 
 
 # --------------------------------------------------------------------------
@@ -83,7 +84,18 @@ def _norm_src(src):
     lexer that consumes it; the category is compared separately)"""
     if "lines" not in src:
         return src
-    return dict(src, lines=[[l[0], l[1].strip(" "), l[2], l[3], l[4]] for l in src["lines"]])
+    return dict(src, lines=[[l[0], l[1].strip(" "), l[2], l[3], l[4]] + list(l[5:6]) for l in src["lines"]])
+
+
+def _has_isdir(isrc):
+    """the implementation exposes parse_file's directive test on a yielded line (FileParser.is_directive)"""
+    return all(len(l) > 5 and l[5] is not None for l in isrc.get("lines", []))
+
+
+def _drop_isdir(src):
+    if "lines" not in src:
+        return src
+    return dict(src, lines=[l[:5] for l in src["lines"]])
 
 
 def judge(text: str, rep: dict, isrc: dict, ipar: dict, univ: bool):
@@ -93,8 +105,12 @@ def judge(text: str, rep: dict, isrc: dict, ipar: dict, univ: bool):
       implementation-vs-spec difference; violations: list of messages."""
     m, s = rep["model"], rep["spec"]
     corr, finds, viol = [], set(), []
-    if isrc is not None and _norm_src(isrc) != _norm_src(m["source"]):
-        corr.append(("clex.source", isrc, m["source"]))
+    if isrc is not None:
+        msrc = m["source"]
+        if not _has_isdir(isrc):
+            isrc, msrc = _drop_isdir(isrc), _drop_isdir(msrc)
+        if _norm_src(isrc) != _norm_src(msrc):
+            corr.append(("clex.source", isrc, msrc))
     if ipar is not None and ipar != m["parse"]:
         corr.append(("clex.parse", ipar, m["parse"]))
     info = {"wf": s["wf"], "nontrivial": False}
@@ -126,14 +142,19 @@ def judge(text: str, rep: dict, isrc: dict, ipar: dict, univ: bool):
                     viol.append(
                         f"line {n} is {'not ' if missed else ''}counted by c_file_source but the specification says "
                         f"{'it holds code' if missed else 'nothing survives on it'} (counted {sorted(ic)} vs {sorted(sc)})")
-            ilg = [[l[2] == "CPP_DIRECTIVE", l[0]] for l in isrc["lines"]]
-            if strip_lines(ilg, drop) != strip_lines(s["logical"], drop):
+            slg = s["logical"]
+            if _has_isdir(isrc):
+                ilg = [[l[5], l[0]] for l in isrc["lines"]]
+            else:  # only the extents can be compared here; the node list below carries the directive test
+                ilg = [[False, l[0]] for l in isrc["lines"]]
+                slg = [[False, ls] for _, ls in slg]
+            if strip_lines(ilg, drop) != strip_lines(slg, drop):
                 if drop:
                     # the carried "/" may also move a logical-line boundary: accept only if the node view agrees
-                    if merge_code(strip_lines(ilg, drop)) != merge_code(strip_lines(s["logical"], drop)):
-                        viol.append(f"logical lines {ilg} differ from the specification's {s['logical']}")
+                    if merge_code(strip_lines(ilg, drop)) != merge_code(strip_lines(slg, drop)):
+                        viol.append(f"logical lines {ilg} differ from the specification's {slg}")
                 else:
-                    viol.append(f"logical lines (directive?, lines) {ilg} differ from the specification's {s['logical']}")
+                    viol.append(f"logical lines (directive?, lines) {ilg} differ from the specification's {slg}")
             if isrc["total"] != len(isrc["counted"]):
                 viol.append(f"total_sloc {isrc['total']} != number of counted lines {len(isrc['counted'])}")
             if isrc["phys"] != len(lines):
@@ -141,9 +162,7 @@ def judge(text: str, rep: dict, isrc: dict, ipar: dict, univ: bool):
     # --- parse_file level
     if ipar is not None:
         if "exc" in ipar:
-            if ipar["exc"] == "ParseError:not-a-directive" and s["k3"]:
-                finds.add(F3)
-            elif isrc is not None and "exc" in isrc:
+            if isrc is not None and "exc" in isrc:
                 pass  # already reported
             else:
                 viol.append(f"parse_file raises {ipar['exc']} on a well-formed text")
@@ -351,8 +370,13 @@ def gen_text(rng, hostile=False):
                 body = d[:i] + rng.choice([" \\\n ", " /* c */ ", " \\\n"]) + d[i + 1:]
             tail = rng.choice(["", "", " ", " // c", " /* t */", " /* m\n m */", " \\\n"])
             lines.append(lead + "#" + mid + body + tail)
-        elif r < 0.30:
+        elif r < 0.26:
             lines.append(rng.choice(["", " ", "\t", "\\", " \\", "/**/", "//", "// c \\\n still comment"]))
+        elif r < 0.30:
+            # first token `##` (code, F-C05-3 repaired) next to look-alikes whose first token is `#` (directives)
+            lines.append(rng.choice(["", " ", "\t", "/* c */", "/**/ "]) +
+                         rng.choice(["##", "## x", "##define X 1", "#\\\n#", "#\\\n# define Y", "###", "## /* c */ y \\\n z",
+                                     "# #", "#/**/#", "# ## x", "#/* c\n */# z", "#\\\n #", "##\\\n", "## // c"]))
         else:
             toks = gen_code_tokens(rng, rng.randint(1, 7))
             s = join_tokens(rng, toks)
@@ -486,7 +510,7 @@ def check_one(ctx, drv, text, univ, origin):
         if info["nontrivial"]:
             ctx.nontrivial.add(text)
             ctx.sample(case, cap=8)
-        for k in ("k1", "k2", "k3"):
+        for k in ("k1", "k2"):
             if rep["spec"][k]:
                 ctx.dist[origin + ":" + k] += 1
     for op, im, mo in corr:
@@ -585,7 +609,9 @@ def run(ctx, drv):
         "well-formed (wf) = valid pp-token sequence with comments: no unterminated literal/comment, no stray backslash, "
         "no file-final backslash, no empty character constant, no // or /* inside a multi-character constant, and only "
         "C white space (Python-only spaces U+001C-1F, U+0085, U+00A0, ... excluded)",
-        "trigraphs/digraphs (%:, ??=) and raw string literals are not modelled (the property's alphabet has none)",
+        "trigraphs/digraphs (%:, ??=) are not modelled (the property's alphabet has none); C++11 raw string literals are "
+        "outside the specification's C reading of phase 3: stream `rawstr` judges them with g++ -E and reports the "
+        "implementation's miscounts under the recorded finding F-C05-4",
         "parse_file is observed with file_parser.open replaced by an in-memory universal-newline stream; a sample goes "
         "through real temporary files and must agree",
         "node kind is observed as DirectiveNode vs CodeNode; which directive class was built is C01/C03 territory",
@@ -604,7 +630,7 @@ def run(ctx, drv):
     # witnesses of the recorded findings are replayed on the implementation
     for k in ctx.known:
         w = k.get("witness", {})
-        if "text" in w:
+        if "text" in w and k.get("id") != RAW.F4:   # F-C05-4 is judged by g++, not by the specification (stream rawstr)
             check_one(ctx, drv, w["text"], False, "witness")
     # exhaustive
     big = ctx.thorough() or ctx.budget_scale > 1
@@ -636,6 +662,10 @@ def run(ctx, drv):
     else:
         oracle_round(ctx, drv, 40)
     lap("oracle")
+    # C++11 raw string literals, judged by g++ -E (finding class F-C05-4: outside the C reading of the specification)
+    with core.Scratch() as d:
+        ctx.extra["rawstr_judged"] = RAW.run_stream(ctx, drv, ctx.n(120, 1500), d)
+    lap("rawstr")
     if ctx.violations:
         minimise_violations(ctx, drv)
     ctx.extra["distinct_nontrivial_total"] = len(ctx.nontrivial) + ctx.extra.get("exhaustive_nontrivial", 0)
@@ -715,6 +745,10 @@ def replay(ctx, drv, case):
     I.mods()
     text, univ = case["text"], bool(case.get("univ", False))
     out = {"text": text, "implementation": {"c_file_source": None if univ else I.impl_source(text), "parse_file": I.impl_parse(text)}}
+    if case.get("origin") == "rawstr":
+        with core.Scratch() as d:
+            out["gxx_E_code_lines"] = RAW.gxx_code_lines(text, d)
+        out["has_raw_string_literal"] = RAW.has_raw_string(text)
     if drv is not None:
         rep = drv.ask({"op": "clex", "text": text, "univ": univ})
         out["model"] = rep["model"]
